@@ -94,6 +94,11 @@ def mk_ite(c, a, b):
         return b
     if a == b:
         return a
+    if isinstance(c, tuple) and c and c[0] == 'not':
+        # one polarity: `a if not c else b` is `b if c else a`
+        return ('ite', c[1], b, a)
+    if isinstance(c, tuple) and c and c[0] == 'bf' and len(c[1]) == 1 and tuple(c[2]) == (True, False):
+        return ('ite', c[1][0], b, a)
     return ('ite', c, a, b)
 
 
@@ -592,7 +597,8 @@ class Extractor:
                 return self.truth(x)
             if y == FALSE and self.boolish(x):
                 return mk_not(self.truth(x))
-        if is_formula(a) or is_formula(b):
+        if is_formula(a) or is_formula(b) or a[0] == 'any' or b[0] == 'any':
+            # a boolean compared with a value: equal truth (labels and flags are booleans)
             fa, fb = self.truth(a), self.truth(b)
             return mk_or(mk_and(fa, fb), mk_and(mk_not(fa), mk_not(fb)))
         x, y = sorted((a, b), key=repr)
@@ -1389,6 +1395,17 @@ def resolve_fresh(q):
     return q2
 
 
+def _axiom_distinct(a, b) -> bool:
+    """domain facts used to discard impossible rows: the two components of Model.get_association_field_names(x)
+    (an association's two field names) are different strings."""
+    if not (isinstance(a, tuple) and isinstance(b, tuple) and len(a) == 3 and len(b) == 3):
+        return False
+    if a[0] == 'item' and b[0] == 'item' and a[1] == b[1] and a[2] != b[2]:
+        base = a[1]
+        return isinstance(base, tuple) and len(base) > 1 and base[0] == 'mcall' and base[1] == 'get_association_field_names'
+    return False
+
+
 def canonical_table(paths, drop_env=False):
     """decision table: essential atoms (sorted) x outcome per valuation."""
     paths = [resolve_fresh(q) for q in paths if q.cond != FALSE]
@@ -1404,11 +1421,54 @@ def canonical_table(paths, drop_env=False):
     atoms = set()
     for q in paths:
         atoms_of(q.cond, atoms)
+    # a stored boolean that is a formula over tests (`x.f = E if c else False`, i.e. c & E) is the same as branching
+    # on those tests and storing constants: its atoms join the table and the value is evaluated per row
+    vatoms = set()
+    for q in paths:
+        for e in q.effects:
+            if e[0] == 'set' and isinstance(e[2], tuple) and e[2] and _boolish(e[2]) and e[2] not in (TRUE, FALSE):
+                atoms_of(e[2], vatoms)
+    cofactor = bool(vatoms) and len(atoms | vatoms) <= MAX_ATOMS
+    if cofactor:
+        atoms |= vatoms
     atoms = sorted(atoms, key=repr)
     if len(atoms) > MAX_ATOMS:
         raise Unsupported(f'{len(atoms)} atoms in one table')
     rows = {}
+    # atoms `X == c` with one subject X and different constants c exclude each other
+    eq_subject = {}
+    for i, a in enumerate(atoms):
+        if isinstance(a, tuple) and a and a[0] == 'eq' and len(a) == 3:
+            for x, c in ((a[1], a[2]), (a[2], a[1])):
+                if isinstance(c, tuple) and c and c[0] in ('lit', 'const') and not (isinstance(x, tuple) and x and x[0] in ('lit', 'const')):
+                    eq_subject[i] = (x, c)
+
+    # domain axiom: the two field names of one association are different, so `names[0] == v` and `names[1] == v`
+    # exclude each other as well
+    eq_pairs = {}
+    for i, a in enumerate(atoms):
+        if isinstance(a, tuple) and a and a[0] == 'eq' and len(a) == 3 and i not in eq_subject:
+            eq_pairs[i] = (a[1], a[2])
+
+    def conflict(bits):
+        """index of the later of two true atoms that cannot hold together, or None"""
+        seen = {}
+        for i, b in enumerate(bits):
+            if b and i in eq_subject:
+                x, c = eq_subject[i]
+                if x in seen and seen[x] != c:
+                    return i
+                seen.setdefault(x, c)
+        true_pairs = [(i, eq_pairs[i]) for i, b in enumerate(bits) if b and i in eq_pairs]
+        for k, (i, (x1, y1)) in enumerate(true_pairs):
+            for (j, (x2, y2)) in true_pairs[k + 1:]:
+                for p_, q_, v1, v2 in ((x1, x2, y1, y2), (x1, y2, y1, x2), (y1, x2, x1, y2), (y1, y2, x1, x2)):
+                    if v1 == v2 and _axiom_distinct(p_, q_):
+                        return j
+        return None
     for bits in itertools.product((False, True), repeat=len(atoms)):
+        if conflict(bits) is not None:
+            continue
         val = dict(zip(atoms, bits))
         hit = [q for q in paths if ev(q.cond, val)]
         if not hit:
@@ -1416,7 +1476,26 @@ def canonical_table(paths, drop_env=False):
             continue
         # several paths can hold only if they agree (conditions are disjoint by construction)
         q = hit[0]
-        rows[bits] = outcome(q)
+        out_ = outcome(q, val if cofactor else None)
+        # under a true `x == y` the two terms are interchangeable: one spelling (the smaller) in the outcome
+        for i, b in enumerate(bits):
+            if b and i in eq_pairs:
+                x_, y_ = sorted(eq_pairs[i], key=repr)
+                if not (isinstance(x_, tuple) and isinstance(y_, tuple)):
+                    continue
+                out_ = _subst(out_, y_, x_)
+        rows[bits] = out_
+    # infeasible valuations are don't-cares: filled canonically from the feasible neighbour obtained by dropping the
+    # later conflicting atom, so that two tables that agree on every feasible valuation stay equal
+    for bits in itertools.product((False, True), repeat=len(atoms)):
+        b2 = bits
+        while True:
+            k = conflict(b2)
+            if k is None:
+                break
+            b2 = b2[:k] + (False,) + b2[k + 1:]
+        if b2 != bits:
+            rows[bits] = rows[b2]
     ess = []
     for i, a in enumerate(atoms):
         for bits, r in rows.items():
@@ -1435,12 +1514,15 @@ def canonical_table(paths, drop_env=False):
     return ('table', eatoms, tuple(table))
 
 
-def outcome(q: Path):
+def outcome(q: Path, val=None):
     effs = []
     final = {}
     for e in q.effects:
         if e[0] == 'set':
-            final[e[1]] = canon(e[2])
+            v = e[2]
+            if val is not None and isinstance(v, tuple) and v and _boolish(v) and v not in (TRUE, FALSE):
+                v = TRUE if ev(v, val) else FALSE
+            final[e[1]] = canon(v)
         elif e[0] == 'continue':
             continue
         else:
